@@ -3,7 +3,24 @@ Property graphs, JSON values, SQL values, and `encode : Graph → Db` following 
 (tables node(id, graph_id, kind_ids int2[], properties jsonb), edge(id, graph_id, start_id, end_id, kind_id, properties), kind(id, name)).
 Core Lean only. Shared by C01 / C02.
 -/
+/-- `mapM` / `filterM` in `Except`, by plain structural recursion (the library versions are accumulator loops; these unfold in proofs) -/
+def List.mapE {ε α β : Type} (xs : List α) (f : α → Except ε β) : Except ε (List β) :=
+  match xs with
+  | [] => .ok []
+  | x :: rest => do let y ← f x; let ys ← List.mapE rest f; pure (y :: ys)
+
+def List.filterE {ε α : Type} (xs : List α) (f : α → Except ε Bool) : Except ε (List α) :=
+  match xs with
+  | [] => .ok []
+  | x :: rest => do let b ← f x; let ys ← List.filterE rest f; pure (if b then x :: ys else ys)
+
 namespace Dawgs
+
+/-- string comparison in code-point order (C collation) -/
+def strCmp (a b : String) : Ordering := if a == b then .eq else if a < b then .lt else .gt
+
+/-- integer comparison -/
+def intCmp (a b : Int) : Ordering := if a == b then .eq else if a < b then .lt else .gt
 
 /-- decimal number m · 10^(-s); the scale is kept because jsonb prints `1.0` and `1` differently (`->>`) -/
 structure Dec where
